@@ -29,7 +29,7 @@ Print Assumptions C13_clean.
 
 (* After that, whatever still arrives -- late deliveries and stream ends from the network on any observer object
    ever handed out, acknowledgements of contexts handed out earlier, Commit() calls and stale schedule ticks,
-   store calls returning, scrapes, rebalance timers, a second Close() -- nothing is handed to the consumer
+   store calls returning, scrapes, rebalance timers, membership notifications, a second Close() -- nothing is handed to the consumer
    and no stream is opened. *)
 Theorem C13_silent : forall c auto st0 h r1 r2 late,
   let l := reached c auto st0 h in
@@ -63,31 +63,45 @@ Theorem C13_durable : forall c st0 h r1,
 Proof. exact durable_from_every_streaming_state. Qed.
 Print Assumptions C13_durable.
 
-(* The states in which C13_clean does not apply are exactly those in which a rebalance has closed the stream and
-   not yet reopened it (every reachable state with a rebalance under way has the observer map cleared) ... *)
+(* The other reachable states are those in which a rebalance has closed the stream and not yet reopened it (every
+   reachable state with a rebalance under way has the observer map cleared) ... *)
 Theorem C13_window_is_the_rest : forall c st0 h,
   let s := fst (run (init_state c st0) h) in s_balancing s = true -> s_obs_nil s = true.
 Proof. intros c st0 h. apply bal_nil_run. cbn. discriminate. Qed.
 Print Assumptions C13_window_is_the_rest.
 
-(* ... and there the property is FALSE of the faithful model (known finding K4): the teardown dies in stream.Close
-   on the cleared observer map, before the agents are closed, and Start() never returns *)
-Theorem C13_rebalance_window_refuted : forall l r1 r2,
-  s_failed (l_s l) = false -> l_down l = false -> s_obs_nil (l_s l) = true ->
+(* ... and from them, too, the teardown runs to its end (repaired defect K4: stream.Close used to walk the cleared
+   observer map and die): the reopen is cancelled, there is nothing left to close, the agents are closed, Start()
+   returns; what is left is a closed stream. *)
+Theorem C13_window_clean : forall c auto st0 h r1 r2,
+  let l := reached c auto st0 h in
+  s_failed (l_s l) = false -> s_obs_nil (l_s l) = true ->
   let l' := fst (shutdown l r1 r2) in
   let outs := snd (shutdown l r1 r2) in
-  In Died outs /\ ~ In Returned outs /\ ~ In DcpClose outs /\ ~ In CliClose outs /\
-  s_failed (l_s l') = true /\ l_dcp l' = l_dcp l /\ l_cli l' = l_cli l.
-Proof. exact shutdown_window. Qed.
-Print Assumptions C13_rebalance_window_refuted.
+  Quiet (l_s l') /\ s_failed (l_s l') = false /\ l_down l' = true /\ l_dcp l' = false /\ l_cli l' = false /\
+  (exists pre, outs = pre ++ [DcpClose; CliClose; Returned] /\ forall x, In x pre -> no_delivery x /\ x <> Died) /\
+  ~ In Died outs.
+Proof. exact clean_from_every_window_state. Qed.
+Print Assumptions C13_window_clean.
 
-(* the witness replayed on the implementation: start, a membership change closes the stream, Close() *)
+(* From every reachable state that has not failed -- streaming or inside a rebalance window -- whatever still arrives after
+   the teardown (late deliveries, stream ends, acknowledgements, Commit()s, stale ticks, the reopen timer of the cancelled
+   rebalance, further membership notifications, a second Close()) reaches nobody and opens nothing. *)
+Theorem C13_silent_everywhere : forall c auto st0 h r1 r2 late,
+  let l := reached c auto st0 h in
+  s_failed (l_s l) = false -> forallb late_lop late = true ->
+  forall outs x, In outs (snd (lrun (fst (shutdown l r1 r2)) late)) -> In x outs -> no_delivery x.
+Proof. exact silent_from_every_state. Qed.
+Print Assumptions C13_silent_everywhere.
+
+(* the former witness of K4: start, a membership change closes the stream, Close(); then the reopen timer fires *)
 Example C13_window_witness :
   let sv := Srv [(0, 20)] [(0, 77)] [] in
-  snd (lrun (linit (Cfg false false None []) true fempty) [SOp (Open 0 0 sv); SOp RebClose; Shutdown true true]) =
+  snd (lrun (linit (Cfg false false None []) true fempty) [SOp (Open 0 0 sv); SOp RebClose; Shutdown true true; SOp (RebOpen 0 0 sv)]) =
   [ souts [Callback BeforeStreamStart; OpenReq 0 (MkO 0 0 0 0 18446744073709551615); Callback AfterStreamStart];
     souts [Callback BeforeRebalanceStart; Callback BeforeStreamStop; CloseReq 0; Callback AfterStreamStop; Callback AfterRebalanceStart];
-    souts [NoSave; Callback BeforeStreamStop; Fail] ++ [Died] ].
+    souts [NoSave] ++ [DcpClose; CliClose; Returned];
+    souts [Ignored] ].
 Proof. vm_compute. reflexivity. Qed.
 
 (* non-vacuity: a streaming state with a delivery outstanding and a failing store call in flight; the final save
